@@ -11,8 +11,8 @@ pub static PROP: PropDef = PropDef {
     builds: opt_only,
     max_tape: 64,
     cases: |t| match t {
-        Tier::Quick => 60_000,
-        Tier::Thorough => 3_000_000,
+        Tier::Quick => 150_000,
+        Tier::Thorough => 4_000_000,
     },
     fixed: no_fixed,
     check,
